@@ -301,6 +301,15 @@ def r7_shared_error_transport(ctx):
         yield o
 
 
+def r8_shared_set(ctx):
+    """a count is repaired with Segment.set on the plain element designator: the whole element becomes the new value (a
+    wrong count that carries a component separator must not keep its other components) and no other value is altered.
+    C10.R8 (shared)."""
+    from . import c10
+    for o in c10.r8_set_changes_one_value(ctx):
+        yield o
+
+
 RULES = [
     Rule('C20.R1', 'input is read by path through X12Reader, which opens it in a valid text read mode', r1_open_mode, floor=2),
     Rule('C20.R2', 'every output option receives the buffer (must-pass-through)', r2_outputs, floor=3),
@@ -309,5 +318,6 @@ RULES = [
     Rule('C20.R4', 'segments re-formatted with source delimiters, once each, eol = LF or empty', r4_format, floor=3),
     Rule('C20.R5', 'shared with C01.R3-R6, R8: tokenizer exits, buffer conservation, strip set, Segment built from the untrimmed token, ISA not sub-split, format keeps every value', r5_shared_tokenizer, floor=14),
     Rule('C20.R7', 'shared with C04.R11: every discrepancy is recorded and handed over exactly once', r7_shared_error_transport, floor=5),
+    Rule('C20.R8', 'shared with C10.R8: Segment.set replaces exactly the designated element / component', r8_shared_set, floor=1),
     Rule('C20.R6', 'the scratch buffer is created per input file', r6_buffer_per_file, floor=2),
 ]
